@@ -815,6 +815,35 @@ def gen_vertices(out, parts):
     ok3 = any(isinstance(n, ast.Assign) and seg_is(src, n, "fnormals = face_normals(mesh, persistent=persistent)") for n in ast.walk(fn))
     if not (ok1 and ok2 and ok3):
         T.fail(AV, fn, "vertex_normals: plumbing (face_normals -> interpolate(weight=interpolation) -> normalized) changed")
+    chain = None
+    for st in T.body_nodoc(fn):
+        if isinstance(st, ast.If) and any(isinstance(x, ast.Assign) and T.dotted(x.targets[0]) == "fnormals" for x in st.body):
+            chain = st
+    if chain is None:
+        T.fail(AV, fn, "vertex_normals: the if/elif/else choosing `fnormals` was not found")
+    tests = []
+    cur = chain
+    while True:
+        if not (len(cur.body) == 1 and isinstance(cur.body[0], ast.Assign) and T.dotted(cur.body[0].targets[0]) == "fnormals"):
+            T.fail(AV, cur, "vertex_normals: a branch of the fnormals choice is not a single assignment")
+        if seg_is(src, cur.test, "custom_fnormals is not None") and seg_is(src, cur.body[0].value, "custom_fnormals"):
+            tests.append(("custom", "0%nat"))
+        elif seg_is(src, cur.test, 'mesh.faces.has_attribute("normals")') and seg_is(src, cur.body[0].value, 'mesh.faces.get_attribute("normals")'):
+            tests.append(("cached", "1%nat"))
+        else:
+            T.fail(AV, cur, "vertex_normals: unrecognised branch in the fnormals choice")
+        if len(cur.orelse) == 1 and isinstance(cur.orelse[0], ast.If):
+            cur = cur.orelse[0]
+        else:
+            break
+    if not (len(cur.orelse) == 1 and seg_is(src, cur.orelse[0], "fnormals = face_normals(mesh, persistent=persistent)")):
+        T.fail(AV, cur, "vertex_normals: the final branch does not compute face_normals(mesh, persistent=persistent)")
+    if sorted(t for t, _ in tests) != ["cached", "custom"]:
+        T.fail(AV, chain, "vertex_normals: expected exactly the tests on custom_fnormals and on the cached attribute")
+    out.append("(* which face normals vertex_normals interpolates: 0 the caller's custom_fnormals, 1 the cached \"normals\" attribute,\n"
+               "   2 freshly computed ones - in the order the source tests them *)\n"
+               "DefinitionZ g_vn_source (custom cached : bool) : nat :=\n    %s 2%%nat.\n"
+               % " ".join("if %s then %s else" % (t, v) for t, v in tests))
     modes = None
     for n in ast.walk(fn):
         if isinstance(n, ast.Compare) and T.dotted(n.left) == "interpolation" and isinstance(n.ops[0], ast.NotIn) \
@@ -995,6 +1024,15 @@ def gen_interp(out, parts):
 
     hdr = "(acc x : A)"
 
+    def need_lower(fn):
+        """`weight = weight.lower()` then `check_argument("weight", weight, str, ...)`: every accepted spelling is normalised
+        before validation and before the branches compare it"""
+        b = T.body_nodoc(fn)
+        if not (len(b) >= 2 and seg_is(src, b[0], "weight = weight.lower()") and isinstance(b[1], ast.Expr)
+                and is_call(b[1].value, "check_argument") and len(b[1].value.args) == 4
+                and seg_is(src, b[1].value.args[0], '"weight"') and T.dotted(b[1].value.args[1]) == "weight"):
+            T.fail(INTERP, fn, "%s: does not start with `weight = weight.lower()` ; `check_argument(\"weight\", weight, str, ...)`" % fn.name)
+
     def need_clear(fn, out):
         """the output attribute is emptied before the first weighting branch (the model starts from zero)"""
         for st in T.body_nodoc(fn):
@@ -1026,6 +1064,7 @@ def gen_interp(out, parts):
             ws = sorted(x.value for x in n.args[3].elts)
     if ws != ["angle", "area", "sum", "uniform"]:
         T.fail(INTERP, fn, "interpolate_faces_to_vertices: accepted weights %s" % ws)
+    need_lower(fn)
     need_clear(fn, "vattr")
     bu = branch_of(fn, "uniform")
     st = find_stmt(bu, lambda n: assign_to(n, "vattr[v]"), "vattr[v] = sum(...)", fn)
@@ -1062,6 +1101,7 @@ def gen_interp(out, parts):
     # ---- average_corners_to_vertices
     fn = T.find_def(tree, "average_corners_to_vertices", INTERP)
     parts.append(("interpolate.py:average_corners_to_vertices", T.sha(src, fn)))
+    need_lower(fn)
     need_clear(fn, "vattr")
     bb = branch_of(fn, "uniform")
     st = find_stmt(bb, lambda n: assign_to(n, "vattr[v]"), "vattr[v] = ...", fn)
@@ -1087,6 +1127,7 @@ def gen_interp(out, parts):
     # ---- average_corners_to_faces
     fn = T.find_def(tree, "average_corners_to_faces", INTERP)
     parts.append(("interpolate.py:average_corners_to_faces", T.sha(src, fn)))
+    need_lower(fn)
     need_clear(fn, "fattr")
     bb = branch_of(fn, "uniform")
     st = find_stmt(bb, lambda n: assign_to(n, "fattr[F]"), "fattr[F] = ...", fn)
